@@ -278,7 +278,7 @@ func (c *C) End() {
 	if len(r.samples) < r.maxSample && c.Desc != nil {
 		r.samples = append(r.samples, c.Desc)
 	}
-	flush := time.Since(r.lastFlush) > 2*time.Second
+	flush := time.Since(r.lastFlush) > 250*time.Millisecond
 	r.mu.Unlock()
 	if flush {
 		r.Flush(false)
